@@ -122,7 +122,24 @@ def run_pyvc_check(prop, tier, seed, ptasks, assumptions, checker_cmd, extra_cov
             else:
                 res.violations.append((name, path, "no-failing-input-found"))
         else:
-            res.undecided.append("%s: solver returned unknown on %d instance(s)" % (name, n["unknown"]))
+            # `unknown` is never a violation by itself (DESIGN section 6): look for a real failing input on the
+            # bounded pool; a native failure is reported with its replay, otherwise the check is undecided
+            rp = None
+            if t is not None and t.replay_kind:
+                key = (t.replay_kind, json.dumps(t.replay_payload, sort_keys=True))
+                if key not in bounded_done:
+                    payload = dict(t.replay_payload)
+                    payload.update({"obligation": name, "model": {}})
+                    bounded_done[key] = native_replay(prop, t.replay_kind, payload)
+                rp = bounded_done[key]
+            if rp and rp.get("confirmed"):
+                rec = {"property": prop, "obligation": name, "solver": "unknown", "native": rp, "replay_kind": t.replay_kind, "model": {},
+                       "note": "obligation undecided by the solver; failing input found by the bounded native search"}
+                path = write_replay_file(prop, name, rec)
+                res.violations.append((name, path, ""))
+            else:
+                res.undecided.append("%s: solver returned unknown on %d instance(s)%s" % (
+                    name, n["unknown"], " [bounded native search: %s]" % rp.get("note") if rp else ""))
     # known findings that were reproduced inside their domain
     for name, n in sorted(named.items()):
         if name.endswith("[known-finding-domain]"):
